@@ -3,6 +3,11 @@
 cd "$(dirname "$0")/.."
 tier=${1:-quick}
 rc=0
+# checker self-test: the symbolic executor against CPython/numpy on the real functions (a mismatch is a fault of the checker, not of dadi)
+for sd in 1 2; do
+  out=$(.venv/bin/python tools/crosscheck_e2.py $sd 2>&1 | tail -n 3); echo "$out" | grep "cross-check\|MISMATCH" | cut -c1-250
+  echo "$out" | grep -q " 0 mismatches" || rc=1
+done
 for i in $(seq -w 1 20); do
   out=$(./check C$i --tier $tier 2>&1); r=$?
   echo "C$i exit=$r $(echo "$out" | grep SUMMARY | cut -c1-220)"
